@@ -175,14 +175,67 @@ class Ctx:
         lines.extend(self.funs)
         return "\n".join(lines)
 
-    def query(self, ob, negate=True, extra=""):
+    _SYM = None
+
+    def relevant_hyps(self, hyps, goal, rounds=3, level=1):
+        """cone of influence over the generated constants (names containing ! or @): dropping hypotheses
+        is always sound; the full query is the fallback"""
+        import re
+        if Ctx._SYM is None:
+            Ctx._SYM = re.compile(r"[A-Za-z_][A-Za-z0-9_<>.]*[!@][0-9]+")
+        syms = [set(Ctx._SYM.findall(h)) for h in hyps]
+        n = max(1, len(hyps))
+        freq = {}
+        for ss in syms:
+            for x in ss:
+                freq[x] = freq.get(x, 0) + 1
+        common = {x for x, c in freq.items() if c > 0.4 * n and n > 6}
+        goal_syms = set(Ctx._SYM.findall(goal)) - common
+        keep = [False] * len(hyps)
+        cone = set(goal_syms)
+        # round 0: everything that talks about a (rare) symbol of the goal, whatever its size
+        for i, ss in enumerate(syms):
+            if (ss & goal_syms) or not ss:
+                keep[i] = True
+                if len(hyps[i]) < 2500:
+                    cone |= (ss - common)
+        # expansion: only small facts (definitions, kinds, equalities) pull in more
+        # (level 0: only definitional equalities  (= name term)  of names already in the cone)
+        def is_def_of_cone(h):
+            if not h.startswith("(= "):
+                return False
+            nm = h[3:].split(" ", 1)[0]
+            return nm in cone
+        for _ in range(rounds if level else 6):
+            changed = False
+            for i, ss in enumerate(syms):
+                if level == 0:
+                    if not keep[i] and is_def_of_cone(hyps[i]):
+                        keep[i] = True
+                        changed = True
+                        cone |= (ss - common)
+                    continue
+                if not keep[i] and len(hyps[i]) < 2500 and ((ss - common) & cone):
+                    keep[i] = True
+                    changed = True
+                    cone |= (ss - common)
+            if not changed:
+                break
+        return [h for h, kf in zip(hyps, keep) if kf]
+
+    def query(self, ob, negate=True, extra="", relevant=False, level=1):
         """SMT-LIB text: hypotheses /\\ not goal  (unsat == obligation holds)."""
         out = [self.header()]
         for n, s in self.consts:
             out.append("(declare-const %s %s)" % (qsym(n), s))
-        for a in self.axioms:
-            out.append("(assert %s)" % a)
-        for h in ob.hyps:
+        hyps = list(self.axioms) + list(ob.hyps)
+        if relevant:
+            hyps = self.relevant_hyps(hyps, ob.goal, level=level)
+        for h in hyps:
+            out.append("(assert %s)" % h)
+        if False:
+            pass
+        for h in ():
             out.append("(assert %s)" % h)
         if negate:
             out.append("(assert (not %s))" % ob.goal)
